@@ -207,8 +207,9 @@ def hyp_run(rec, strategy, oracle, max_examples, seed, shrink=True, max_buckets=
                   verbosity=hypothesis.Verbosity.quiet)
         @given(strategy)
         def test(case):
-            if state['t0'] is not None and time.time() - state['t0'] > shrink_budget_s:
-                # stop shrinking: abort the run and report the best failure found so far
+            if state['t0'] is not None and (time.time() - state['t0'] > shrink_budget_s or state['last'].sig == 'did-not-terminate'):
+                # stop shrinking: abort the run and report the best failure found so far (a case that hangs is not
+                # shrunk at all: every attempt would cost the whole CPU limit)
                 raise _ShrinkTimeout()
             try:
                 cpu_guarded(oracle, case, limit)
@@ -233,6 +234,10 @@ def hyp_run(rec, strategy, oracle, max_examples, seed, shrink=True, max_buckets=
             rec.note('shrink-timeout')
             rec.violation(v)
             excluded.add(v.sig)
+            if v.sig == 'did-not-terminate':
+                # searching on behind a hang would cost the CPU limit for every further case that hangs
+                rec.note('search-stopped-after-hang')
+                break
             continue
         except Violation as v:
             v = state['last'] or v
